@@ -11,4 +11,5 @@ def run(tier, seed):
                 'values': 'symbolic i64 / bool'}
     c.outside = ['programs outside the generated sample; deeper nesting']
     c.run_family('scopes', ts, ('exit', 'stdout', 'stderr-empty', 'panic', 'hang'), scopes.role)
+    c.run_random(('exit', 'stdout', 'stderr-empty', 'panic', 'hang'))
     return c.finish()
